@@ -46,7 +46,8 @@ async def execute(net, hyg, plan):
     for i in range(plan.get("dir_entries", 0)):
         tree[f"/d/e{i:03d}"] = b"x" * i
     w = W.World(net, tree=tree, block_size=bs, backend=plan.get("backend", "memory"),
-                **({"users": lambda base: [aioftp.User(base_path=base), aioftp.User("alice", "secret", base_path=base)]} if plan.get("before_abor") else {}),
+                **({"users": lambda base: [aioftp.User("anonymous" if plan.get("no_fallback") else None, base_path=base),
+                                           aioftp.User("alice", "secret", base_path=base)]} if plan.get("before_abor") else {}),
                 **(plan.get("server_kwargs") or {}))
     net.loop.exec_delay = plan.get("exec_delay", 0.0)
     await w.start()
@@ -203,7 +204,7 @@ async def execute(net, hyg, plan):
 
         if plan.get("before_abor"):
             # the replies to the commands in front of the ABOR (331 for USER alice) come first, before or after the 150
-            for code_ in ["331"] * len(plan["before_abor"]):
+            for code_ in [("530" if x.endswith("nobody-there") else "331") for x in plan["before_abor"]]:
                 if code_ in seq:
                     seq.remove(code_)
                 else:
@@ -548,6 +549,11 @@ def gen_cases(tier, seed):
         cases.append({"kind": "enum", "stride": 2 if tier == "quick" else 1,
                       "plan": {"verb": verb, "size": size, "connect": "before", "seed": seed, "backend": backend, "followup": "quit",
                                "before_abor": ["USER alice"], "dir_entries": 12 if verb == "LIST" else 0}})
+    # ... and USER for a name the server does not know (no anonymous fall-back: 530, the session has no user at all)
+    for verb, size in (("RETR", 3 * bs + 17), ("STOR", 3 * bs + 17)):
+        cases.append({"kind": "enum", "stride": 2 if tier == "quick" else 1,
+                      "plan": {"verb": verb, "size": size, "connect": "before", "seed": seed, "backend": "memory", "followup": "quit",
+                               "before_abor": ["USER nobody-there"], "no_fallback": True, "dir_entries": 0}})
     # a second ABOR, or another command, written in one piece with the ABOR
     for tail in (["ABOR"], ["PWD"], ["ABOR", "PWD"]):
         for verb, size, backend in ((("RETR", 3 * bs + 17, "async"), ("STOR", 3 * bs + 17, "memory")) if tier == "quick" else
